@@ -30,8 +30,12 @@ MAIN_RULES = [
     ("r7", "", ("seq", (("str", "a"), ("star", ("grp", ("seq", (("not", ("str", "c")), ("id", "ANY"))))), ("opt", ("str", "c"))))),
     ("r8", "@", ("seq", (("str", "a"), ("id", "r9")))),
     ("r9", "!", ("seq", (("star", ("grp", ("seq", (("not", ("grp", ("alt", (("str", "c"), ("str", "bc"))))), ("id", "ANY"))))), ("opt", ("id", "r1"))))),
+    # bounded repetitions that may match nothing, evaluated where trivia has not been skipped yet (start of the
+    # rule): e{0,n} and e{,n} must place trivia exactly as e? ~ e? ~ ... does
+    ("r10", "", ("seq", (("minmax", ("str", "a"), 0, 2), ("opt", ("id", "r1"))))),
+    ("r11", "", ("seq", (("max", ("str", "a"), 2), ("minmax", ("id", "r1"), 1, 2)))),
 ]
-MAIN_STARTS = ["r0", "r2", "r4", "r5", "r6", "r7", "r8"]
+MAIN_STARTS = ["r0", "r2", "r4", "r5", "r6", "r7", "r8", "r10", "r11"]
 BASES = ["a", "ab", "abb", "abbc", "abc", "bb"]
 WS_PIECES = {
     ("str", " "): [" "],
